@@ -412,7 +412,24 @@ MEASURED_INLINE = {
 # harmless refactor regenerates the same Lean definition.  Every rule preserves results, exceptions and evaluation order:
 #   N1  `m[g]`  ->  `m.group(g)`            when local `m` is bound once, by a `match`/`search`/`fullmatch` call
 #                                            (`re.Match.__getitem__` is defined as `group`)
+#   N2  `xs += e`  ->  `xs.extend(e)`      when every binding of local `xs` in the function is a freshly built list
+#                                            (`list.__iadd__` is `extend`: same iteration of `e`, same TypeError)
 _MATCH_CALLS = {"match", "search", "fullmatch"}
+
+
+def _always_fresh_list(fn, name):
+    if name in [a.arg for a in fn.args.args + fn.args.kwonlyargs] or (fn.args.vararg and fn.args.vararg.arg == name):
+        return False
+    binds = [n for n in _walk_scope(fn.body) if name in _targets_of(n) and not isinstance(n, ast.AugAssign)]
+    if not binds:
+        return False
+    for b in binds:
+        if not isinstance(b, (ast.Assign, ast.AnnAssign)) or b.value is None:
+            return False
+        tgts = b.targets if isinstance(b, ast.Assign) else [b.target]
+        if not all(isinstance(t, ast.Name) for t in tgts) or not _is_fresh_list(b.value):
+            return False
+    return True
 
 
 def _bound_once_by_match(fn, name):
@@ -434,6 +451,15 @@ class _X4Normaliser(ast.NodeTransformer):
                 and _bound_once_by_match(self.fn, node.value.id):                                              # N1
             new = ast.Call(func=ast.Attribute(value=node.value, attr="group", ctx=ast.Load()), args=[node.slice], keywords=[])
             return ast.copy_location(new, node)
+        return node
+
+
+    def visit_AugAssign(self, node):
+        self.generic_visit(node)
+        if isinstance(node.op, ast.Add) and isinstance(node.target, ast.Name) and _always_fresh_list(self.fn, node.target.id):   # N2
+            call = ast.Call(func=ast.Attribute(value=ast.Name(id=node.target.id, ctx=ast.Load()), attr="extend", ctx=ast.Load()),
+                            args=[node.value], keywords=[])
+            return ast.copy_location(ast.Expr(value=call), node)
         return node
 
 
